@@ -1,6 +1,7 @@
 package rules
 
 import (
+	"go/token"
 	"go/types"
 	"sort"
 	"strings"
@@ -19,7 +20,7 @@ func C19(c *Ctx) {
 	r := c.R
 	r.Explain = "Decided statically: (R1) every state of the extracted transition tables (all destinations and sources, plus __idle) is restorable by FromDump: it is registered in the pool's state map and accepted by that machine's MustCopyWithState — the registration/acceptance sets are re-derived from the shape of StatesList/FinStatesList/MustNewFSM/MustCopyWithState/fsm_pool.Init as written; " +
 		"(R2) the dumped payload type closure is JSON round-trip safe (no unexported/dropped/interface fields, symmetric custom marshalers) and the machines hold no state besides *fsm.FSM (whose only datum written after construction is currentState) and the payload pointer; " +
-		"(R3) the three WithSetup siblings install exactly (state, payload) and FromDump passes the dump's own State and Payload, FSMInstance.Do writes the resulting state into the dump before marshalling; (R4) GetAllFSM restores every entry via FromDump and fails as a whole on an error. " +
+		"(R3) the three WithSetup siblings install exactly (state, payload) and FromDump passes the dump's own State and Payload, FSMInstance.Do writes the resulting state into the dump before marshalling; (R4) GetAllFSM restores every entry via FromDump and fails as a whole on an error; (R5) the service hands a round out as persisted: GetFSMInstance/loadFSM return only what FromDump or Create produced in that very call; (R2, values) the FSM code never compares time.Time values with == / != (the representation — monotonic reading, *Location pointer — does not survive the dump: the same instant compares equal in memory and unequal after a restore). " +
 		"NOT decided: equality of responses between continuing in memory and continuing after dump+restore (execution), encoding/json itself."
 	r.Trusted = []string{"go/types, go/ssa", "encoding/json round-trip of exported fields of bool/int/string/[]byte/time.Time/map/slice/struct/pointer kinds"}
 	ms := c.Machines("C19/A1")
@@ -238,6 +239,7 @@ func panics(fn *ssa.Function) []ssa.Instruction {
 func c19Payload(c *Ctx) {
 	r := c.R
 	r.Rule("C19/R2", "the dump carries everything: payload type closure is JSON round-trip safe; machines and the engine hold no other mutable state", 6)
+	c19TimeIdentity(c)
 	t := c.lookupType("C19/R2", "fsm/state_machines", "FSMDump")
 	if t != nil {
 		var issues []jsonIssue
@@ -524,6 +526,14 @@ func c19Siblings(c *Ctx, ms map[string]*fsmx.Machine) {
 
 func c19Listing(c *Ctx) {
 	r := c.R
+	r.Rule("C19/R5", "the round handed out for a message is restored from the stored dump at that moment (or freshly created), never an instance kept from an earlier call", 2)
+	for _, name := range []string{"GetFSMInstance", "loadFSM"} {
+		if fn := c.Fn("C19/R5", "client/services/fsmservice", "FSM", name); fn != nil {
+			why := c19FreshInstance(c, fn, 0)
+			r.Check(why == "", "C19/R5", "fsmservice."+name+":as-persisted", "every instance returned is the result of FromDump (of the stored dump) or Create in this very call", c.Pos(fn.Pos()),
+				why+": an instance that outlives the call is changed in place by Do; if that change is not saved (an error after Do, before SaveFSM) the service keeps answering from a round that a restored node does not have")
+		}
+	}
 	r.Rule("C19/R4", "listing restores every stored round through FromDump and propagates an error", 1)
 	fn := c.Fn("C19/R4", "client/services/fsmservice", "FSM", "GetAllFSM")
 	if fn == nil {
@@ -720,4 +730,89 @@ func c19PayloadWriters(c *Ctx) map[*ssa.Function]bool {
 		}
 	}
 	return out
+}
+
+
+// c19FreshInstance: every *FSMInstance that fn can return is nil, the result of state_machines.FromDump / Create called
+// in fn, or the result of a module helper of the same package for which the same holds. Returns "" or the offending shape.
+func c19FreshInstance(c *Ctx, fn *ssa.Function, depth int) string {
+	for _, ret := range ssax.Returns(fn) {
+		if len(ret.Results) == 0 {
+			continue
+		}
+		for _, lf := range ssax.Leaves(ret.Results[0], ret) {
+			v := ssax.Resolve(lf.V)
+			if ssax.IsNilConst(v) {
+				continue
+			}
+			call := callOfResult(v)
+			if call == nil {
+				return fn.Name() + " returns " + ssax.Path(v) + " at " + c.PosOf(ret) + ", which is not restored or created in this call"
+			}
+			id := ssax.FuncID(ssax.CalleeObj(call))
+			if strings.HasSuffix(id, "fsm/state_machines.FromDump") || strings.HasSuffix(id, "fsm/state_machines.Create") {
+				continue
+			}
+			cal := call.Common().StaticCallee()
+			if cal == nil || !load.InModule(cal) || cal.Pkg != fn.Pkg || depth >= 2 {
+				return fn.Name() + " returns the result of " + id + " at " + c.PosOf(ret)
+			}
+			if why := c19FreshInstance(c, cal, depth+1); why != "" {
+				return why
+			}
+		}
+	}
+	return ""
+}
+
+
+// c19TimeIdentity: `==`/`!=` on time.Time (or on a struct/array containing one) compares the in-memory representation —
+// wall/monotonic words and the *Location pointer — which JSON does not preserve: a value copied from a request compares
+// equal to that request's value in memory and different after dump+restore. Equal/Before/After compare instants.
+// Census over the machine packages, the request types and the engine; expected count zero.
+func c19TimeIdentity(c *Ctx) {
+	r := c.R
+	var bad []string
+	n := 0
+	containsTime := func(t types.Type) bool {
+		var walk func(t types.Type, d int) bool
+		walk = func(t types.Type, d int) bool {
+			if d > 4 {
+				return false
+			}
+			if nt, ok := t.(*types.Named); ok && nt.Obj().Pkg() != nil && nt.Obj().Pkg().Path() == "time" && nt.Obj().Name() == "Time" {
+				return true
+			}
+			switch u := t.Underlying().(type) {
+			case *types.Struct:
+				for i := 0; i < u.NumFields(); i++ {
+					if walk(u.Field(i).Type(), d+1) {
+						return true
+					}
+				}
+			case *types.Array:
+				return walk(u.Elem(), d+1)
+			}
+			return false
+		}
+		return walk(t, 0)
+	}
+	for fn := range c.P.AllFuncs() {
+		if !load.InModule(fn) || c.isTestFunc(fn) || fn.Pkg == nil || len(fn.Blocks) == 0 {
+			continue
+		}
+		pp := fn.Pkg.Pkg.Path()
+		if !(strings.Contains(pp, "/fsm/") || strings.HasSuffix(pp, "/fsm")) {
+			continue
+		}
+		n++
+		ssax.Instrs(fn, func(in ssa.Instruction) {
+			if b, ok := in.(*ssa.BinOp); ok && (b.Op == token.EQL || b.Op == token.NEQ) && containsTime(b.X.Type()) {
+				bad = append(bad, shortFn(fn)+" at "+c.PosOf(in))
+			}
+		})
+	}
+	r.Count("r2_fsm_functions_scanned_for_time_identity", n)
+	sort.Strings(bad)
+	r.Check(len(bad) == 0 && n > 50, "C19/R2", "fsm:no-time-identity-comparison", "no == / != on time.Time values in the FSM packages", "", "compared by representation: "+strings.Join(bad, "; ")+" — equal in memory, unequal (or the reverse) once the value has been through the dump")
 }
